@@ -150,7 +150,9 @@ class Sym:
 
     def __bool__(self):
         t = self.t
-        if not z3.is_bool(t):
+        if z3.is_string(t):
+            t = z3.Length(t) != 0  # truth value of a str: non-empty
+        elif not z3.is_bool(t):
             t = _num(t) != 0
         return cur().branch(t)
 
@@ -491,6 +493,24 @@ class SymArr:
             return self.fn()
         raise OutOfSubset("item() on non-scalar symbolic array")
 
+    def detach_from_base(self):
+        """Called before writing through a view: the view becomes its own array; the base (and its other views) are
+        poisoned, so any later read of them is rejected instead of silently missing the write."""
+        base = self.base
+        f = self.fn
+        if isinstance(getattr(f, "__closure__", None), tuple):
+            pass
+        base.writes += 1  # makes every other view of `base` stale (see _snap_fn)
+
+        def poisoned(*idx):
+            raise OutOfSubset("read of an array after a write through one of its views (view aliasing is not modelled)")
+
+        # keep this view readable: its own guard (and those of the views it was derived from) are exempted
+        for gd in getattr(self, "_guards", ()):
+            gd.exempt = True
+        base.fn = poisoned
+        self.base = self
+
     def copy(self):
         fn = self.fn
         r = SymArr(self.shape, fn, self.kind, self.pylist, name=self.name)
@@ -527,8 +547,10 @@ class SymArr:
     def T(self):
         if self.ndim != 2:
             raise OutOfSubset(".T on non-2d symbolic array")
-        src = self
-        return SymArr((self.shape[1], self.shape[0]), lambda i, j: src.fn(j, i), self.kind, base=self.base)
+        srcfn = _snap_fn(self, view=True)
+        r = SymArr((self.shape[1], self.shape[0]), lambda i, j: srcfn(j, i), self.kind, base=self.base)
+        r._guards = tuple(getattr(self, "_guards", ())) + (srcfn,)
+        return r
 
     def cpu(self):
         return self
@@ -561,26 +583,38 @@ class SymArr:
             else:
                 shape[k] = S(total) // rest if contains_sym((total, rest)) else total // rest
         shape = tuple(shape)
-        src = self
+        srcfn = _snap_fn(self, view=True)
+
+        sym_old = len(old) > 1 and any(_dim_lit(d) is None for d in old)
+        sym_new = len(shape) > 1 and any(_dim_lit(d) is None for d in shape)
+        rm_new = rowmajor(shape) if sym_new else None
+        rm_old = rowmajor(old) if sym_old else None
 
         def fn(*idx):
             # row-major linear index in the new shape, then unravel in the old shape
-            lin = z3.IntVal(0)
-            for i, d in zip(idx, shape):
-                lin = lin * lift(d) + i
+            if rm_new is not None:
+                lin = rm_new.lin(*idx)
+            else:
+                lin = z3.IntVal(0)
+                for i, d in zip(idx, shape):
+                    lin = lin * lift(d) + i
+            if rm_old is not None:
+                return srcfn(*[rm_old.unr[a](lin) for a in range(len(old))])
+            if len(old) == 1:
+                return srcfn(lin)
             oidx = []
             for d in reversed(old):
                 d = lift(d)
                 oidx.append(lin % d)
                 lin = lin / d
-            # leading index: whatever remains (avoid a mod for the outermost axis)
-            if oidx:
-                oidx[-1] = oidx[-1] if len(old) > 1 else oidx[-1]
-            return src.fn(*reversed(oidx))
+            return srcfn(*reversed(oidx))
 
         if len(old) == 1 and len(shape) == 1:
-            return SymArr(shape, self.fn, self.kind, False, base=self.base)
-        return SymArr(shape, fn, self.kind, False, base=self.base)
+            r = SymArr(shape, srcfn, self.kind, False, base=self.base)
+        else:
+            r = SymArr(shape, fn, self.kind, False, base=self.base)
+        r._guards = tuple(getattr(self, "_guards", ())) + (srcfn,)
+        return r
 
     view = reshape
 
@@ -697,7 +731,7 @@ class SymArr:
                 i = self._norm_index(k, n)
                 plan.append(("int", i))
             ax += 1
-        src = self
+        srcfn = _snap_fn(self, view=not any(p[0] == "arr" for p in plan))
 
         def fn(*idx):
             idx = list(idx)
@@ -718,22 +752,26 @@ class SymArr:
             for j, p in enumerate(plan):
                 if p[0] == "int":
                     srcidx[j] = lift(p[1])
-            return src.fn(*srcidx)
+            return srcfn(*srcidx)
 
         if not new_shape and not any(p[0] != "int" for p in plan):
             if self.pylist or True:
                 # scalar element access returns the element itself
                 return self.fn(*[lift(p[1]) for p in plan])
         has_arr = any(p[0] == "arr" for p in plan)
-        return SymArr(tuple(new_shape), fn, self.kind, self.pylist and self.ndim == 1 and not has_arr and len(new_shape) == 1,
-                      base=None if has_arr else self.base)
+        r = SymArr(tuple(new_shape), fn, self.kind, self.pylist and self.ndim == 1 and not has_arr and len(new_shape) == 1,
+                   base=None if has_arr else self.base)
+        if not has_arr:
+            r._guards = tuple(getattr(self, "_guards", ())) + (srcfn,)
+        return r
 
     def __setitem__(self, key, value):
         if not isinstance(key, tuple):
             key = (key,)
         old = self.fn
+        if self.base is not self:
+            self.detach_from_base()
         self.writes += 1
-        self.base.writes += 0 if self.base is self else 1
         if all(not isinstance(k, (slice, SymArr, list)) and k is not None and k is not Ellipsis for k in key) and len(key) == self.ndim:
             idxs = [lift(self._norm_index(k, n)) for k, n in zip(key, self.shape)]
             val = value
@@ -874,6 +912,77 @@ class SymArr:
         return [self[i] for i in range(ln)]
 
 
+
+
+class RowMajor:
+    """C-order (row-major) bijection between index tuples of a shape with SYMBOLIC extents and linear indices, as
+    uninterpreted functions `lin` / `unr[a]` constrained by quantified axioms (assumed on the current path):
+      idx in range  =>  0 <= lin(idx) < prod(shape)  and  unr_a(lin(idx)) = idx_a  and  lin(idx) = sum idx_a * stride_a
+      0 <= v < prod =>  0 <= unr_a(v) < shape_a      and  lin(unr(v)) = v
+    These are theorems of integer arithmetic (division with remainder); using them as axioms keeps obligations out of
+    nonlinear div/mod reasoning.  Keyed by the textual shape, so equal shapes share the functions."""
+
+    def __init__(self, shape):
+        self.shape = tuple(shape)
+        key = "x".join(str(lift(d)) for d in shape)
+        nd = len(shape)
+        self.lin = z3.Function(f"lin[{key}]", *([z3.IntSort()] * nd), z3.IntSort())
+        self.unr = [z3.Function(f"unr{a}[{key}]", z3.IntSort(), z3.IntSort()) for a in range(nd)]
+        idx = [z3.Int(f"i!rm{a}") for a in range(nd)]
+        v = z3.Int("v!rm")
+        dims = [lift(d) for d in shape]
+        total = dims[0]
+        for d in dims[1:]:
+            total = total * d
+        inr = z3.And(*[z3.And(i >= 0, i < d) for i, d in zip(idx, dims)])
+        val = z3.IntVal(0)
+        for i, d in zip(idx, dims):
+            val = val * d + i
+        L = self.lin(*idx)
+        self.axioms = [
+            z3.ForAll(idx, z3.Implies(inr, z3.And(L >= 0, L < total, L == val, *[self.unr[a](L) == idx[a] for a in range(nd)])), patterns=[L]),
+            z3.ForAll([v], z3.Implies(z3.And(v >= 0, v < total),
+                                      z3.And(*[z3.And(self.unr[a](v) >= 0, self.unr[a](v) < dims[a]) for a in range(nd)],
+                                             self.lin(*[self.unr[a](v) for a in range(nd)]) == v)),
+                      patterns=[z3.MultiPattern(*[self.unr[a](v) for a in range(nd)])] if nd > 1 else [self.unr[0](v)]),
+        ]
+
+
+def rowmajor(shape):
+    """RowMajor bijection for `shape`, with its axioms assumed once per path."""
+    ctx = cur()
+    key = "x".join(str(lift(d)) for d in shape)
+    cache = ctx.ghost.setdefault("rowmajor", {})
+    if key not in cache:
+        rm = RowMajor(shape)
+        for ax in rm.axioms:
+            ctx.assume(ax)
+        cache[key] = rm
+    return cache[key]
+
+
+_LAST_GUARD = [None]
+
+
+def _snap_fn(arr, view=False):
+    """The index function of `arr` as of NOW (derived arrays must not see later in-place writes to `arr`).
+    For views (basic slices / reshapes) a later write to the base is not modelled: reading such a stale view is rejected."""
+    f = arr.fn
+    if not view:
+        return f
+    base, w0 = arr.base, arr.base.writes
+
+    def g(*idx):
+        if base.writes != w0 and not g.exempt:
+            raise OutOfSubset("read of a view after its base array was written (view aliasing is not modelled)")
+        return f(*idx)
+
+    g._raw = f
+    g.exempt = False
+    _LAST_GUARD[0] = g
+    return g
+
+
 class RaiseSigLazy(Exception):
     def __init__(self, exc):
         self.exc = exc
@@ -905,9 +1014,10 @@ def from_list(xs, kind="real", pylist=True):
 
 def concat_list(a, b):
     la, lb = a.shape[0], b.shape[0]
+    af, bf = a.fn, b.fn
 
     def fn(i):
-        return ite(i < lift(la), a.fn(i), b.fn(i - lift(la)))
+        return ite(i < lift(la), af(i), bf(i - lift(la)))
 
     return SymArr((la + lb,), fn, a.kind, True)
 
@@ -917,11 +1027,12 @@ def repeat_list(a, n):
     la = a.shape[0]
     n0 = smax(0, n)
     lla = _dim_lit(la)
+    af = a.fn
 
     def fn(i):
         if lla == 1:
-            return a.fn(z3.IntVal(0))
-        return a.fn(i % lift(la))
+            return af(z3.IntVal(0))
+        return af(i % lift(la))
 
     return SymArr((n0 * la,), fn, a.kind, True)
 
@@ -956,13 +1067,14 @@ def elementwise(f, *args, kind=None):
     arrs = [as_arr(a) for a in args]
     shape = broadcast_shapes(*[a.shape for a in arrs])
     nd = len(shape)
+    fns = [a.fn for a in arrs]  # snapshot: later in-place writes to the operands must not leak into the result
 
     def fn(*idx):
         vals = []
-        for a in arrs:
+        for a, af in zip(arrs, fns):
             off = nd - a.ndim
             sub = [z3.IntVal(0) if _dim_lit(a.shape[j]) == 1 else idx[off + j] for j in range(a.ndim)]
-            vals.append(a.fn(*sub))
+            vals.append(af(*sub))
         return f(*vals)
 
     k = kind or next((a.kind for a in arrs if a.ndim or True), "real")
